@@ -371,12 +371,15 @@ fn coq_sa(sa: &SocketAddr) -> String {
     }
 }
 
-fn coq_op(c: &COp, o: &Obs) -> String {
+fn coq_op(c: &COp, o: &Obs, uniq: u64) -> String {
     match c {
         COp::Get(k, key, drawn) => {
             // candidates: the scripted generator's draws; for the real (random) generators
-            // the host part of the address that came back
-            let cands: Vec<Vec<u8>> = if *k == 3 {
+            // the host part of the address that came back.  One more candidate that no
+            // other call of the case uses is appended: the oracle stream always holds a
+            // fresh candidate, so a wrongly accepted collision is a disagreement AND a
+            // monitor failure (the correct code never reaches the extra candidate).
+            let mut cands: Vec<Vec<u8>> = if *k == 3 {
                 drawn.iter().map(|d| d.to_vec()).collect()
             } else {
                 match o {
@@ -384,6 +387,10 @@ fn coq_op(c: &COp, o: &Obs) -> String {
                     _ => vec![],
                 }
             };
+            let mut extra = vec![0xfau8; if *k == 3 { 16 } else { 8 }];
+            let n = extra.len();
+            extra[n - 4..].copy_from_slice(&(uniq as u32).to_be_bytes());
+            cands.push(extra);
             format!("(C18.OpGet {} {key} {})", coq_kind(*k), coq_list(cands.iter(), |c| coq_hex(c)))
         }
         COp::Lookup(k, a) => format!("(C18.OpLookup {} {})", coq_kind(*k), coq_hex(a)),
@@ -493,7 +500,7 @@ fn run(raw: &str) -> (String, String) {
     }
     let inp = coq_list(order.iter(), |(t, j)| {
         let (c, o) = &per_thread[*t][*j];
-        format!("({t}, {})", coq_op(c, o))
+        format!("({t}, {})", coq_op(c, o, (*t * 1000 + *j) as u64))
     });
     let obs = coq_list(order.iter(), |(t, j)| coq_obs(&per_thread[*t][*j].1));
     let (fwd, rev) = maps.dump();
